@@ -24,7 +24,7 @@ RULE = (
 )
 BOUNDS = {
     "quick": "H,W<=5, all kH<=H,kW<=W (even, odd, 1x1, 1xk, kx1): all tap x pixel impulse pairs; builders + restorations for H,W<=4 with 3 kernel kinds x lambda in {2^-10,1e-3,0.1,1,10} (+0 where invertible); gaussian radius 0..2, motion length 1..5 x 5 angles",
-    "thorough": "H,W<=6 impulses; restorations H,W<=5",
+    "thorough": "H,W<=7 impulses; restorations H,W<=6",
 }
 WALL_BUDGET = {"quick": 300, "thorough": 2400}
 ASSUMPTIONS = ["FFT results compared with the index-level definition to 1e-12 (absolute, entries O(1))", "restoration reference: numpy.linalg.solve on the model's explicit N x N matrix (N <= 25/36)"]
@@ -61,8 +61,8 @@ def kernels(kH, kW, fill):
 
 
 def cases(tier, seed):
-    S = 5 if tier == "quick" else 6
-    R = 4 if tier == "quick" else 5
+    S = 5 if tier == "quick" else 7
+    R = 4 if tier == "quick" else 6
     out = []
     for H, W in itertools.product(range(1, S + 1), repeat=2):
         for kH, kW in itertools.product(range(1, H + 1), range(1, W + 1)):
